@@ -3,7 +3,7 @@
     in theories/ParamsProofs.v (library theories/ParamsLemmas.v).  This file closes
     the statements, prints their assumptions and exhibits non-trivial objects. *)
 From LymphModel Require Import Base States Linalg Graph Transition Observation Dist Unilateral Models Params
-  ParamsStatements ParamsProofs.
+  ParamsStatements ParamsProofs ParamsBilateral.
 
 (** * Unilateral: every graph, every set of distributions, every call *)
 Theorem C10_uni_names_nodup : C10_uni_names_nodup_stmt.
@@ -45,6 +45,31 @@ Print Assumptions C10_uni_unknown_names_ignored.
 Theorem C10_uni_nested_flattens_to_flat : C10_uni_nested_flattens_to_flat_stmt.
 Proof. exact uni_nested_flattens_to_flat. Qed.
 Print Assumptions C10_uni_nested_flattens_to_flat.
+
+(** * Bilateral: every graph, all four symmetry settings *)
+Theorem C10_bi_names_nodup : C10_bi_names_nodup_stmt.
+Proof. exact bi_names_nodup. Qed.
+Print Assumptions C10_bi_names_nodup.
+
+Theorem C10_bi_nested_flattens_to_flat : C10_bi_nested_flattens_to_flat_stmt.
+Proof. exact bi_nested_flattens_to_flat. Qed.
+Print Assumptions C10_bi_nested_flattens_to_flat.
+
+Theorem C10_bi_set_spec : C10_bi_set_spec_stmt.
+Proof. exact bi_set_spec. Qed.
+Print Assumptions C10_bi_set_spec.
+
+Theorem C10_bi_set_get_positional : C10_bi_set_get_positional_stmt.
+Proof. exact bi_set_get_positional. Qed.
+Print Assumptions C10_bi_set_get_positional.
+
+Theorem C10_bi_set_get_keyword : C10_bi_set_get_keyword_stmt.
+Proof. exact bi_set_get_keyword. Qed.
+Print Assumptions C10_bi_set_get_keyword.
+
+Theorem C10_bi_keyword_over_positional : C10_bi_keyword_over_positional_stmt.
+Proof. exact bi_keyword_over_positional. Qed.
+Print Assumptions C10_bi_keyword_over_positional.
 
 (** * Known findings (the code does this; see known_findings.json) *)
 Theorem C10_positional_order_refuted : C10_positional_order_refuted_stmt.
@@ -95,4 +120,20 @@ Proof. vm_compute. reflexivity. Qed.
 Example C10_ex_raises :
   let r := u_set_params C10_ex_uni (vals [qc 1 2; qc 3 2]) [] in
   snd r = None /\ map qout (map snd (u_got (fst r))) = [(1, 2); (0, 1); (0, 1); (0, 1); (1, 1); (0, 1); (0, 1); (0, 1); (1, 1); (1, 3)]%Z.
+Proof. vm_compute. split; reflexivity. Qed.
+
+(** the same graph as a bilateral model with asymmetric tumour spread and symmetric LNL spread *)
+Definition C10_ex_bi : bilateral := new_bilateral C10_ex_uni false true.
+Example C10_ex_bi_wf : b_wf C10_ex_bi = true.
+Proof. vm_compute. reflexivity. Qed.
+Example C10_ex_bi_names :
+  map fst (b_got C10_ex_bi)
+  = [["ipsi"; "TtoII"; "spread"]; ["ipsi"; "TtoIII"; "spread"]; ["contra"; "TtoII"; "spread"]; ["contra"; "TtoIII"; "spread"];
+     ["II"; "growth"]; ["IItoIII"; "spread"]; ["IItoIII"; "micro"]; ["III"; "growth"]; ["I"; "growth"]; ["ItoII"; "spread"];
+     ["ItoII"; "micro"]; ["late"; "p"]].
+Proof. vm_compute. reflexivity. Qed.
+(** "ipsi_spread" reaches the ipsilateral tumour arcs only, "TtoII_spread" both sides, and beats "ipsi_spread" *)
+Example C10_ex_bi_call :
+  let r := b_set_params C10_ex_bi (vals [qc 1 2]) [(["ipsi"; "spread"], V (qc 1 4)); (["TtoII"; "spread"], V (qc 1 8))] in
+  snd r = Some [] /\ map qout (firstn 5 (map snd (b_got (fst r)))) = [(1, 8); (1, 4); (1, 8); (0, 1); (0, 1)]%Z.
 Proof. vm_compute. split; reflexivity. Qed.
